@@ -211,7 +211,7 @@ func (c *Coordinator) updateScrapeStatusShards(shards []*shardInfo, status map[u
 // 2. is in_transfer state and had been scraped by other shard
 // 3. is normal state and had been scraped by other shard with lower head series
 func (c *Coordinator) gcTargets(changeAbleShards []*shardInfo, active map[uint64]*discovery.SDTargets) {
-	for _, s := range changeAbleShards {
+	for sIndex, s := range changeAbleShards {
 		for h, tar := range s.scraping {
 			// target not exist in active targets
 			if _, exist := active[h]; !exist {
@@ -223,7 +223,7 @@ func (c *Coordinator) gcTargets(changeAbleShards []*shardInfo, active map[uint64
 				continue
 			}
 
-			for _, other := range changeAbleShards {
+			for otherIndex, other := range changeAbleShards {
 				if s == other {
 					continue
 				}
@@ -236,8 +236,14 @@ func (c *Coordinator) gcTargets(changeAbleShards []*shardInfo, active map[uint64
 					}
 
 					if tar.TargetState == st.TargetState {
-						if (c.option.MaxHeadSeries != 0 && other.runtime.HeadSeries < s.runtime.HeadSeries) ||
-							(c.option.MaxHeadSeries == 0 && other.runtime.ProcessSeries < s.runtime.ProcessSeries) {
+						load, otherLoad := s.runtime.HeadSeries, other.runtime.HeadSeries
+						if c.option.MaxHeadSeries == 0 {
+							load, otherLoad = s.runtime.ProcessSeries, other.runtime.ProcessSeries
+						}
+
+						// the copy on the shard with lower load is kept,
+						// if loads are equal, the copy on the former shard is kept, otherwise the duplicate stays for ever
+						if otherLoad < load || (otherLoad == load && otherIndex < sIndex) {
 							delete(s.scraping, h)
 							break
 						}
